@@ -424,6 +424,62 @@ runs last, the open control `very_low`; `status = Closed if _internal_status == 
 def postsolveInternal (close open_ : Bool) (internal : Status) : Status :=
   if close then .closed else if open_ then .opened else internal
 
+/-! ### the model updater (`wntr/sim/models/utils.py`, `hydraulics.update_model_for_controls`)
+
+`ModelUpdater.update(m, wn, obj, attr)` calls every function registered with `updater.add(obj, attr, Definition.update)`;
+`Definition.update` rebuilds (`build(..., index_over=[obj.name])`) the rows / parameters of that one element from its CURRENT
+attributes.  `update_model_for_controls` does so for every `(obj, attr)` the change tracker reports as changed since the last
+`reset_reference_point('model')`; `update_model_for_isolated_junctions_and_links` for every element whose `_is_isolated` flipped. -/
+
+/-- the attributes the row SHAPE of a link depends on, with the Definition class that builds the row -/
+def rowDeps (kind : LinkKind) (approx : Approx) : List (String × String) :=
+  let cls := match kind with
+    | .pipe => (match approx with
+        | .default => "approx_hazen_williams_headloss_constraint"
+        | .piecewise => "piecewise_hazen_williams_headloss_constraint")
+    | .headPump => "head_pump_headloss_constraint"
+    | .powerPump => "power_pump_headloss_constraint"
+    | .prv => "prv_headloss_constraint"
+    | .psv => "psv_headloss_constraint"
+    | .fcv => "fcv_headloss_constraint"
+    | .tcv => "tcv_headloss_constraint"
+  [("status", cls), ("_is_isolated", cls)] ++ (if kind = .headPump then [("pump_curve_name", cls)] else [])
+
+/-- the attributes the PARAMETERS a link row mentions are computed from, with the Definition class of the parameter -/
+def paramDeps (kind : LinkKind) : List (String × String) :=
+  match kind with
+  | .pipe => [("roughness", "hw_resistance_param"), ("diameter", "hw_resistance_param"), ("length", "hw_resistance_param"),
+              ("minor_loss", "minor_loss_param"), ("diameter", "minor_loss_param")]
+  | .headPump => []
+  | .powerPump => [("power", "pump_power_param")]
+  | .tcv => [("setting", "valve_setting_param"), ("setting", "tcv_resistance_param"), ("diameter", "tcv_resistance_param"),
+             ("minor_loss", "minor_loss_param"), ("diameter", "minor_loss_param")]
+  | _ => [("setting", "valve_setting_param"), ("minor_loss", "minor_loss_param"), ("diameter", "minor_loss_param")]
+
+/-- what a junction's mass-balance row depends on -/
+def balanceDeps (pdd : Bool) : List (String × String) :=
+  let cls := if pdd then "pdd_mass_balance_constraint" else "mass_balance_constraint"
+  [("leak_status", cls), ("_is_isolated", cls)]
+
+def subsetB (a b : List (String × String)) : Bool := a.all (fun x => b.contains x)
+
+/-- what determines the shape of one link's row -/
+structure ShapeKey where
+  status : Status
+  isolated : Bool
+  curve : Nat          -- identity of the pump curve (`pump_curve_name`)
+  deriving Repr, DecidableEq, Inhabited
+
+/-- attributes in which two shape keys differ (what the change tracker / the isolation diff reports) -/
+def changedAttrs (old cur : ShapeKey) : List String :=
+  (if old.status = cur.status then [] else ["status"]) ++ (if old.isolated = cur.isolated then [] else ["_is_isolated"]) ++
+  (if old.curve = cur.curve then [] else ["pump_curve_name"])
+
+/-- `update_model_for_controls` + `update_model_for_isolated_junctions_and_links` for one link: the row stays the one built for
+`built` unless a changed attribute is registered for the row's Definition class, in which case it is rebuilt for `cur` -/
+def updateRow (regs : List (String × String)) (cls : String) (built cur : ShapeKey) : ShapeKey :=
+  if (changedAttrs built cur).any (fun a => regs.contains (a, cls)) then cur else built
+
 /-! ### the DOCUMENTED constants (reference for the oracles; `Props/C02.lean` proves the generated constants equal them)
 
 Hazen-Williams in SI units: `h = 10.667·C^(−1.852)·d^(−4.871)·L·q^1.852` (WNTR / EPANET documentation), minor loss
